@@ -43,6 +43,11 @@ impl Scheduler {
         Self::with_state(|state| f(state.execution))
     }
 
+    /// Returns `true` if called from within a model execution
+    pub(crate) fn is_in_execution() -> bool {
+        STATE.is_set()
+    }
+
     /// Perform a context switch
     pub(crate) fn switch() {
         use std::future::Future;
